@@ -8,6 +8,7 @@ import (
 	"sync/atomic"
 	"time"
 
+	"github.com/form3tech-oss/f1/v2/pkg/f1/scenarios"
 	f1testing "github.com/form3tech-oss/f1/v2/pkg/f1/testing"
 	"github.com/form3tech-oss/f1/v2/verifharness/core"
 	"github.com/form3tech-oss/f1/v2/verifharness/engine"
@@ -167,6 +168,21 @@ func init() {
 func c06Run(c *core.Case, o *core.Outcome) {
 	var p c06Params
 	c.Params(&p)
+	// a fifth of the cases run the same registered scenario object twice in a row (one f1 instance
+	// executed twice): the lifecycle must be complete in every run
+	reps := 1
+	if c.Rng("reps").IntN(5) == 0 && p.Ending != "timeout" {
+		reps = 2
+	}
+	reg := scenarios.New()
+	base := p.Desc
+	for rep := 1; rep <= reps && o.Verdict == core.Held; rep++ {
+		p.Desc = fmt.Sprintf("%s run %d/%d of the same registered scenario", base, rep, reps)
+		c06Once(c, o, p, reg)
+	}
+}
+
+func c06Once(c *core.Case, o *core.Outcome, p c06Params, reg *scenarios.Scenarios) {
 	l := engine.NewLog()
 	ctx, cancel := context.WithCancel(context.Background())
 	defer cancel()
@@ -236,7 +252,7 @@ func c06Run(c *core.Case, o *core.Outcome) {
 		}
 	}
 	done := make(chan *engine.Run, 1)
-	go func() { done <- engine.Execute(ctx, p.Spec, l, scenario, nil, nil) }()
+	go func() { done <- engine.Execute(ctx, p.Spec, l, scenario, &engine.Hooks{Registry: reg}, nil) }()
 	var r *engine.Run
 	switch p.Ending {
 	case "cancel-out":
@@ -257,7 +273,7 @@ func c06Run(c *core.Case, o *core.Outcome) {
 	// let gated bodies finish so that they do not leak into later cases
 	waitUntil(5*time.Second, func() bool { return inflight.Load() == 0 })
 	evs := l.Events()
-	o.Events = int64(len(evs))
+	o.Events += int64(len(evs))
 	viol := func(key, format string, a ...any) {
 		o.Violate(key+":"+p.Desc, format+" ("+p.Desc+")", a...)
 	}
